@@ -26,7 +26,7 @@ impl<V> VarEnvironment<V> {
     pub fn add_variable_block(&mut self) ensures ve_blocks(*final(self)) == ve_blocks(*old(self)).push(Map::<Seq<char>, V>::empty()) { unimplemented!() }
     #[verifier::external_body]
     pub fn remove_variable_block(&mut self)
-        requires ve_blocks(*old(self)).len() > 0      // assert!(!self.variables.is_empty())
+        requires ve_blocks(*old(self)).len() > 1      // the code asserts non-emptiness; the pass never pops the outermost block
         ensures ve_blocks(*final(self)) == ve_blocks(*old(self)).drop_last()
     { unimplemented!() }
     #[verifier::external_body]
